@@ -3,8 +3,8 @@
    fragmenting stream Model/Frag.v. *)
 From Coq Require Import List Arith NArith ZArith Bool String.
 From Coq.Strings Require Import Byte.
-From Peppi Require Import Base.Bytes Base.Outcome Base.Stream Gen.Funs Model.Ubjson Model.Start Model.Parse Model.Reader Model.Frag
-  Proofs.ReadProof Proofs.Incremental Proofs.FragProof Proofs.Corollaries.
+From Peppi Require Import Base.Bytes Base.Outcome Base.Stream Gen.Funs Model.Ubjson Model.Start Model.Parse Model.Reader Model.Frag Model.FragSkip
+  Proofs.ReadProof Proofs.Incremental Proofs.FragProof Proofs.FragSkipProof Proofs.Corollaries.
 Import ListNotations.
 
 (* after every call, every column only grew by appending: what was completed before is a prefix of what any later
@@ -50,7 +50,23 @@ Theorem C12_oneshot_any_fragmentation : forall hash data,
   frag_agrees_on (p_slp_read hash (List.length data)) (slp_read {| o_skip := false; o_hash := hash |}) data.
 Proof. exact slp_read_frag. Qed.
 
+(* also the skip-frames one-shot read (copy or seek instead of exact reads) *)
+Theorem C12_oneshot_skip_any_fragmentation : forall hash data sched hashed0,
+  no_fault sched ->
+  let '(res, h') := run_frag2 (p_slp_read_skip hash (List.length data)) (mk_hreader data sched hashed0) in
+  match slp_read {| o_skip := true; o_hash := hash |} data with
+  | Ok (g, rest) =>
+      res = Ok g /\ fs_data (hr_inner h') = rest /\
+      exists used, data = used ++ rest /\
+                   hr_hashed h' = if hash then option_map (fun l => l ++ used) hashed0 else None
+  | Err e => res = Err e
+  | Panic x => res = Panic x
+  | Fuel => res = Fuel
+  end.
+Proof. exact slp_read_skip_frag. Qed.
+
 Print Assumptions C12_event_appends_only.
+Print Assumptions C12_oneshot_skip_any_fragmentation.
 Print Assumptions C12_prefix_of_later_states.
 Print Assumptions C12_frame_count_monotone.
 Print Assumptions C12_bytes_read_accounting.
